@@ -23,7 +23,8 @@ def strategy(draw):
         queries.append([q, ch])
     return {'k': 'model', 'spec': spec, 'queries': queries, 'factor': draw(st.sampled_from(
         [1, 1.0, 0.5, 2])), 'max_per_template': draw(st.integers(2, 6)),
-        'max_channels': draw(st.integers(1, nc)), 'ncc': draw(st.integers(2, 6))}   # >= 2 stored channels (squeeze)
+        'max_channels': draw(st.integers(1, nc)), 'again': draw(st.sampled_from([0, 0, 1, 3])),
+        'ncc': draw(st.integers(2, 6))}   # >= 2 stored channels (squeeze)
 
 
 def _window(A, s, nsw, ch):
@@ -76,6 +77,19 @@ def check(case):
                     key='model-store-ids', observed=ids)
             chans = np.asarray(sw.spike_channels)
             f = case['factor']
+            if case.get('again'):
+                # export once more with another per-template limit: the store in memory must follow
+                np.random.seed((spec['seed'] + 1) % (2 ** 32))
+                mpt2 = case['max_per_template'] + case['again']
+                must_return('save_spikes_subset_waveforms (second export)',
+                            m.save_spikes_subset_waveforms, max_n_spikes_per_template=mpt2,
+                            max_n_channels=case['max_channels'], sample2unit=case['factor'])
+                sw = m.spike_waveforms
+                ids = np.asarray(sw.spike_ids).tolist()
+                chans = np.asarray(sw.spike_channels)
+                disk = np.load(T.dir / '_phy_spikes_subset.spikes.npy').tolist()
+                require(ids == disk, 'store in memory differs from the exported files after a second '
+                        'export', key='model-store-stale', observed=ids, expected=disk)
             for q, ch in case['queries']:
                 cha = None if ch is None else np.array(ch)
                 chl = list(range(nc)) if ch is None else ch
